@@ -324,12 +324,13 @@ def run (c : Cfg) : Nat → Call → World → Res × World × List Item
         | r => r
     | .trigger ps =>
       -- park the queues, set the flag, `update({name: current value})`; finally clear the flag and
-      -- put the parked queues back (watchers by identity, no duplicates); the flag is restored to what it was
+      -- put the parked queues back *in front* (chronological order; watchers by identity, no duplicates);
+      -- the flag is restored to what it was
       let parkedE := w.events
       let parkedQ := w.queued
       let kvs := dedupKeys (ps.map (fun p => (p, getVal w p)))
       let (r1, w1, o1) := run c f (.update kvs) { w with events := [], queued := [], trigger := true }
-      (r1, { w1 with trigger := w.trigger, events := w1.events ++ parkedE,
-                     queued := w1.queued ++ parkedQ.filter (fun x => !hasId w1.queued x.id) }, o1)
+      (r1, { w1 with trigger := w.trigger, events := parkedE ++ w1.events,
+                     queued := parkedQ ++ w1.queued.filter (fun x => !hasId parkedQ x.id) }, o1)
 
 end ParamVerif.Dispatch
